@@ -260,6 +260,17 @@ def unique_names(rng, count, alphabet=NAME_SAFE, dirs=DIRS_SAFE, nocase=True, ma
             continue
         seen.add(key)
         out.append((d, nm))
+        # now and then a second name that differs from it only in bit 5 of a non-letter ('[' vs '{', '@' vs '`',
+        # '^' vs '~' ...): the two are different files, whatever case folding the look-up uses
+        if len(out) < count and rng.random() < 0.12:
+            idxs = [i for i, ch in enumerate(nm) if not ch.isalpha() and chr(ord(ch) ^ 0x20) in alphabet]
+            if idxs:
+                i = rng.choice(idxs)
+                tw = nm[:i] + chr(ord(nm[i]) ^ 0x20) + nm[i + 1:]
+                k2 = (d.lower(), tw.lower()) if nocase else (d, tw)
+                if k2 not in seen and tw != 'L':
+                    seen.add(k2)
+                    out.append((d, tw))
     return out
 
 
